@@ -568,6 +568,9 @@ def run(rep, ctx):
         image_labels_add(rep, M, "R04.3")
         span_through_minus_neighbour(rep, M, "R04.3")
         correction_orientation(rep, M, "R04.3")
+        builders_pick_alike(rep, M, "R04.3")
+        per_copy_distance(rep, M, "R04.3")
+        span_2d_form(rep, M, "R04.3")
     rep.rule("R04.4", "a layered cell found as 3D keeps its two thick vectors, gets the normal as third, is periodic in (a, b) and is minimised along the last axis")
     with rep.guard("R04.4"):
         r04_4(rep, M, "R04.4")
@@ -1053,3 +1056,120 @@ def correction_orientation(rep, M, rid):
                               "rejected and a whole slab is lost", M.where(fq, pr))
     if n < 2:
         raise AnalysisError(f"orientation of the periodic-image correction decided at {n} site(s); both builders have one")
+
+
+# ----------------------------------------------------------------------------- the two builders pick the neighbour of a node in the same way
+def builders_pick_alike(rep, M, rid):
+    """the block that picks, for a node and a basis direction, the neighbour at +span (else the one at -span, multiplier -1; never the node itself) is the
+    same code in the 3D and the 2D builder: equal up to a renaming of private names. A test flipped in one of them (`!=` to `==`) makes that builder
+    use only self-neighbours and fall back to the averaged spans everywhere"""
+    blocks = {}
+    for fq in (PF + "._find_proto_cell_3d", PF + "._find_proto_cell_2d"):
+        fn = M.func(fq)
+        # the chain `if <add>: ... ; if <sub>: ...` (an elif chain in the source) that assigns a constant multiplier in both arms
+        found = None
+        for node in ast.walk(fn):
+            for f in ("body", "orelse"):
+                blk = getattr(node, f, None)
+                if not isinstance(blk, list):
+                    continue
+                for t in blk:
+                    if isinstance(t, ast.If) and isinstance(t.test, ast.Name) and t.orelse and len(t.orelse) == 1 and isinstance(t.orelse[0], ast.If) \
+                            and isinstance(t.orelse[0].test, ast.Name) and any(isinstance(x, ast.Constant) and x.value == -1 or
+                                                                               (isinstance(x, ast.UnaryOp) and isinstance(x.op, ast.USub)) for x in ast.walk(t.orelse[0])):
+                        found = t
+        if found is None:
+            raise AnalysisError(f"{fq.split('.')[-1]}: the block that picks the +span / -span neighbour of a node was not recognised")
+        blocks[fq] = found
+    a, b = blocks.values()
+    na = {x.id for x in ast.walk(a) if isinstance(x, ast.Name)}
+    nb = {x.id for x in ast.walk(b) if isinstance(x, ast.Name)}
+    if _shape([a], na & nb) == _shape([b], na & nb):
+        rep.ok(rid, "both prototype-cell builders pick the neighbour of a node alike (+span first, else -span with multiplier -1, never the node itself)")
+    else:
+        rep.violation(rid, "_find_proto_cell_3d / _find_proto_cell_2d: choice of a node's neighbour", "the two builders differ in the block that picks the neighbour at +span / "
+                      "-span (a flipped test, another multiplier, a missing arm): one of them builds its per-node cells from the wrong neighbours", M.where(PF + "._find_proto_cell_3d", a))
+
+
+def per_copy_distance(rep, M, rid):
+    """both builders choose the reference copy of a basis atom as the argmin of a per-copy norm: the norm is taken over axis 1 of the (copies x 3) array,
+    so that the argmin is a copy number"""
+    n = 0
+    for fq in (PF + "._find_proto_cell_3d", PF + "._find_proto_cell_2d"):
+        fn = M.func(fq)
+        for s2 in ast.walk(fn):
+            if not (isinstance(s2, ast.Assign) and isinstance(s2.value, ast.Call) and (M.ext_name(fq, s2.value.func) or "") == "numpy.argmin" and s2.value.args
+                    and isinstance(s2.value.args[0], ast.Name)):
+                continue
+            dname, iname = s2.value.args[0].id, norm(s2.targets[0])
+            ddef = [s3 for s3 in ast.walk(fn) if isinstance(s3, ast.Assign) and norm(s3.targets[0]) == dname and isinstance(s3.value, ast.Call)
+                    and (M.ext_name(fq, s3.value.func) or "") == "numpy.linalg.norm"]
+            if not ddef:
+                continue
+            arr = norm(ddef[-1].value.args[0]) if ddef[-1].value.args else None
+            used = any(isinstance(x, ast.Subscript) and norm(x.value) == arr and norm(x.slice) == iname for x in ast.walk(fn))
+            if not used:
+                continue
+            n += 1
+            ax = next((k.value for k in ddef[-1].value.keywords if k.arg == "axis"), None)
+            axv = ax.value if isinstance(ax, ast.Constant) else (-ax.operand.value if isinstance(ax, ast.UnaryOp) and isinstance(ax.operand, ast.Constant) else None)
+            if axv in (1, -1):
+                rep.ok(rid, f"{fq.split('.')[-1]}: `{norm(ddef[-1])[:60]}` is a per-copy norm; its argmin selects a row of `{arr}`")
+            else:
+                rep.violation(rid, f"{fq.split('.')[-1]}: `{norm(ddef[-1])[:60]}`", f"the norm is not taken over axis 1 (axis = {norm(ax) if ax is not None else 'all'}): its argmin is a "
+                              f"component number (0..2), not a copy number, but it indexes the rows of `{arr}` - an arbitrary copy becomes the reference, or the index is out of "
+                              "range when fewer than three copies exist", M.where(fq, ddef[-1]))
+    if n < 2:
+        raise AnalysisError(f"reference copy by argmin of a per-copy norm recognised at {n} site(s); both builders have one")
+
+
+def span_2d_form(rep, M, rid):
+    """_find_proto_cell_2d: the per-node vector is multiplier * displacement + correction (the form the 2D builder has; with multiplier = +1, the only value
+    it was ever observed to take there, this equals the 3D form) or the 3D form multiplier * (displacement + correction); a correction that is subtracted,
+    doubled or dropped is neither"""
+    fq = PF + "._find_proto_cell_2d"
+    fn = M.func(fq)
+    corr = [s for s in ast.walk(fn) if isinstance(s, ast.Assign) and isinstance(s.targets[0], ast.Name)
+            and ((isinstance(s.value, ast.Call) and (M.ext_name(fq, s.value.func) or "") in ("numpy.dot", "numpy.matmul"))
+                 or (isinstance(s.value, ast.BinOp) and isinstance(s.value.op, ast.MatMult)))]
+    blk = None
+    for node in ast.walk(fn):
+        for f in ("body", "orelse"):
+            b = getattr(node, f, None)
+            if corr and isinstance(b, list) and corr[0] in b:
+                blk = b
+    if blk is None:
+        raise AnalysisError("_find_proto_cell_2d: periodic-image correction not found")
+    mults = {s.targets[0].id for s in ast.walk(fn) if isinstance(s, ast.Assign) and isinstance(s.targets[0], ast.Name)
+             and ((isinstance(s.value, ast.Constant) and s.value.value in (1, -1)) or (isinstance(s.value, ast.UnaryOp) and isinstance(s.value.operand, ast.Constant)
+                                                                                    and s.value.operand.value == 1))}
+    disp = [s for s in blk if isinstance(s, ast.Assign) and isinstance(s.targets[0], ast.Name) and isinstance(s.value, ast.BinOp) and isinstance(s.value.op, ast.Sub)
+            and all(isinstance(x, ast.Subscript) for x in (s.value.left, s.value.right))]
+    if not disp or not mults:
+        raise AnalysisError("_find_proto_cell_2d: displacement / multiplier of the per-node cell vector not recognised")
+    env = {corr[0].targets[0].id: {("c",): 1}, disp[0].targets[0].id: {("d",): 1}}
+    for mname in mults:
+        env[mname] = {("m",): 1}
+    target = None
+    for s in blk[blk.index(corr[0]) + 1:]:
+        if isinstance(s, ast.Assign) and isinstance(s.targets[0], ast.Name) and s not in disp:
+            p = _poly_of(s.value, env)
+            if p is not None:
+                env[s.targets[0].id] = p
+                target = s.targets[0].id
+        elif isinstance(s, ast.AugAssign) and isinstance(s.target, ast.Name) and s.target.id in env and isinstance(s.op, (ast.Mult, ast.Add, ast.Sub)):
+            p = _poly_of(ast.BinOp(left=ast.Name(id=s.target.id, ctx=ast.Load()), op=type(s.op)(), right=s.value), env)
+            if p is None:
+                raise AnalysisError(f"_find_proto_cell_2d: `{norm(s)}` not modelled")
+            env[s.target.id] = p
+            target = s.target.id
+    if target is None:
+        raise AnalysisError("_find_proto_cell_2d: per-node cell vector not recognised")
+    got = env[target]
+    shown = " + ".join(f"{v}*{'*'.join(k)}" for k, v in sorted(got.items()))
+    if got in ({("d", "m"): 1, ("c",): 1}, {("d", "m"): 1, ("c", "m"): 1}):
+        rep.ok(rid, f"_find_proto_cell_2d: per-node cell vector = {shown}")
+    else:
+        rep.violation(rid, "_find_proto_cell_2d: per-node cell vector", f"`{target}` = {shown} (m multiplier, d displacement, c periodic-image correction); required m*d + c "
+                      "(or the 3D form m*d + m*c): every link across a periodic boundary gets the wrong lattice translation and the monolayer's prototype cell is distorted",
+                      M.where(fq, corr[0]))
